@@ -7,11 +7,11 @@ GEN_FILES = ['Grammars']
 THEOREM_NAMES = ['run_fuel_mono', 'run_fuel_mono_false', 'word_munch', 'expandTabs_id', 'dl_domain_rt', 'dl_domain_dtype_rt', 'sl_domain_rt',
                  'sl_domain_len_rt', 'dl_domain_comment_rt', 'dl_domain_missing_assign_rejected', 'comp_domain_rt', 'resting_rt',
                  'kernel_rt', 'kernel_extra_close_rejected', 'kernel_missing_name_rejected', 'complex_rt', 'structure_rt',
-                 'reaction_plain_rt', 'reaction_info_rt', 'kernel_conc_rt', 'two_statements_rt']
+                 'reaction_plain_rt', 'reaction_info_rt', 'kernel_conc_rt', 'two_statements_rt', 'keyword_prefixed_name_rt']
 THEOREMS = ['Dsd.C13.' + t for t in THEOREM_NAMES]
 ASSUMPTIONS = [
     'pyparsing 3.3.2 is modelled by a hand-written interpreter (Model/Pyparsing.lean: whitespace/comment skipping, Word maximal munch, '
-    'Literal prefix match, ordered choice, greedy repetition, Combine adjacency, LineEnd at end of input); its agreement with the real '
+    'Literal prefix match, Keyword = prefix match not followed by an identifier character, ordered choice, greedy repetition, Combine adjacency, LineEnd at end of input); its agreement with the real '
     'library is established only by the correspondence stream',
     'the grammar itself (Gen/Grammars.lean) is regenerated from pil_parser.py by translator/gen.py on every run',
     'legal layouts: either assignment sign where the grammar has `assign`, every keyword alias, >= 1 blank after keywords and between '
@@ -24,7 +24,8 @@ MANIFEST = {
             'keyword aliases, both assignment signs, optional star), dl_domain_dtype_rt, sl_domain_rt, sl_domain_len_rt, '
             'dl_domain_comment_rt (trailing comment, no final newline), comp_domain_rt (strand / sup-sequence, any number of domains), '
             'resting_rt (any number of members), kernel_rt (name = kernel_string parses to exactly the token forest of the kernel '
-            'string, for any nesting depth, any number of strands and empty loops, for names without a statement-keyword prefix), the '
+            'string, for any nesting depth, any number of strands and empty loops, for EVERY identifier name - keyword_prefixed_name_rt '
+            'spells out the former defect: names that start with or equal a statement keyword), the '
             'rejections dl_domain_missing_assign_rejected, kernel_extra_close_rejected, kernel_missing_name_rejected, plus word_munch '
             'and expandTabs_id; complex_rt and structure_rt (both strand notations), reaction_plain_rt and reaction_info_rt (type, rate, '
             'any number of concentration units, every time unit), kernel_conc_rt (all four concentration modes), two_statements_rt '
@@ -34,8 +35,9 @@ MANIFEST = {
             'independence are NOT theorems: they are decided on the real parser by a '
             'reference renderer over grammar-generated token trees in random layouts, and the model is compared with pyparsing on the '
             'same texts, four negative families and random mutations.',
-    'note': 'pyparsing semantics is modelled by hand and tied by differential testing only; keyword-prefixed kernel-complex names are '
-            'recorded known findings (keys keyword-prefix:<kw>).',
+    'note': 'pyparsing semantics is modelled by hand and tied by differential testing only; the keyword-prefix defect found by this '
+            'check (lengthy = 5 parsed as a domain statement) is repaired in /repo (fixed: entries of known_findings.txt) - the grammar '
+            'now uses Keyword, modelled by G.kw.',
     'technique': 'Lean 4 symbolic execution of a pyparsing interpreter over the grammar regenerated from source; correspondence check; reference renderer oracle',
 }
 
@@ -142,10 +144,17 @@ def run(res, proof):
     neg = negatives(rng, 400 if quick else 8000)
     for fam, txt in neg:
         cases.append(('negative:' + fam, txt, None))
-    # keyword-prefixed kernel-complex names (known finding) and raw mutations: correspondence only
+    # kernel-complex names that start with, or are, a statement keyword, with patterns that fit the keyword's own statement
+    # (the former known finding, repaired by a fix: commit): they are kernel complexes
     for kw in PG.KEYWORDS:
-        for pat in (['a', 'b'], ['5'], ['NNN'], ['short']):
-            cases.append(('keyword-prefix:' + kw, kw + 'y = ' + ' '.join(pat) + '\n', [['kernel-complex', kw + 'y', pat]]))
+        for nm in (kw + 'y', kw, kw + '-1', kw + '_', kw + '5'):
+            for pat in (['a', 'b'], ['5'], ['NNN'], ['short'], ['a', '+', 'b*']):
+                cases.append(('keyword-prefix:' + kw, nm + ' = ' + ' '.join(pat) + '\n', [['kernel-complex', nm, pat]]))
+        # ... and the keyword followed by a blank still opens its own statement
+    cases.append(('keyword-then-blank', 'length y = 5\n', [['dl-domain', 'y', '5']]))
+    cases.append(('keyword-then-blank', 'strand y = a b\n', [['composite-domain', 'y', ['a', 'b']]]))
+    cases.append(('keyword-then-blank', 'sup-sequence sup-sequence = a b\n', [['composite-domain', 'sup-sequence', ['a', 'b']]]))
+    cases.append(('keyword-then-blank', 'state state = [state]\n', [['resting-macrostate', 'state', ['state']]]))
     base = [c for c in cases if c[0].startswith('stmt')]
     for _ in range(1500 if quick else 30000):
         lab, txt, _ = rng.choice(base)
